@@ -1,4 +1,5 @@
 import MdwModel.Driver.Common
+import MdwModel.Driver.C09
 import MdwModel.Model.BufferHistory
 namespace Mdw.Drv.C16
 open Mdw Mdw.Drv
@@ -72,6 +73,8 @@ def runDirPos (kv : List (String × String)) : Res := Id.run do
 
 def run (kv : List (String × String)) : Res := Id.run do
   if get kv "kind" == some "dirpos" then return runDirPos kv
+  -- histories on the real DirSection: the reserved directory array against the DirSection model (slot by slot)
+  if get kv "kind" == some "dirhist" then return Drv.C09.run kv
   let some opsS := get kv "ops" | return .bad "no ops"
   let some obsS := get kv "obs" | return .bad "no obs"
   let some final := getHex kv "final" | return .bad "no final"
